@@ -45,6 +45,7 @@ type Report struct {
 	VacRun      int
 	VacPass     int
 	KnownLines  []string
+	Broken      map[string]string // functions whose verification conditions could not be generated
 	Bounded     []map[string]interface{}
 	Replays     []string
 	Slow        []string
@@ -125,6 +126,7 @@ func runPropertyRaw(prop, tier string, forBaseline bool) *Report {
 	var violatedOrder []string
 	assume := map[string]bool{}
 	brokenFunc := map[string]string{}
+	rep.Broken = brokenFunc
 	for _, r := range results {
 		fsu := FuncSummary{Name: r.Key, File: r.Pos, Loops: r.Loops, Arith: "int (mathematical integers; machine overflow as soft obligations)"}
 		if r.Spec.Arith == "bv" {
